@@ -4,6 +4,10 @@ package bigslice
 
 import (
 	"context"
+	goerrors "errors"
+	"strings"
+
+	"github.com/grailbio/base/errors"
 
 	"github.com/grailbio/bigslice/frame"
 	zz "github.com/grailbio/bigslice/internal/zzverif"
@@ -227,4 +231,53 @@ func zzH_C17_readerFunc() {
 	d := sliceio.ZZDriveReaderOpt(r, 5, 1, 2, "dst", "ReaderFunc leaves destination rows beyond those it reports untouched")
 	d.ZZExpect(data.Keys, data.Vals, "ReaderFunc")
 	zz.Assert(!dirty, "the destination is zeroed before it is handed to the user function")
+}
+
+// zzH_C06_readerFuncErr: errors returned by user reader/writer functions:
+// plain errors become Fatal errors whose cause is the user's error, temporary
+// errors and EOF pass through unchanged, and the error is sticky.
+func zzH_C06_readerFuncErr() {
+	kind := zz.AnyIntIn("kind", 0, 2)
+	userErr := goerrors.New("zz-user-message")
+	var ret error
+	switch kind {
+	case 0:
+		ret = userErr
+	case 1:
+		ret = errors.E(errors.Temporary, userErr)
+	case 2:
+		ret = sliceio.EOF
+	}
+	failAt := zz.AnyIntIn("failAtCall", 0, 2)
+	calls := 0
+	type state struct{}
+	op := ReaderFunc(1, func(shard int, st state, ks []int64, vs []int64) (int, error) {
+		calls++
+		if calls-1 == failAt {
+			return 0, ret
+		}
+		return 1, nil
+	})
+	r := op.Reader(0, nil)
+	ctx := context.Background()
+	var err error
+	for c := 0; c < 4 && err == nil; c++ {
+		_, err = r.Read(ctx, frame.Slices(make([]int64, 1), make([]int64, 1)))
+	}
+	zz.Assert(err != nil, "the user's error surfaces")
+	switch kind {
+	case 0:
+		zz.Reach("plain error wrapped")
+		zz.Assert(errors.Match(errors.E(errors.Fatal), err), "a plain user error becomes a fatal error")
+		zz.Assert(strings.Contains(err.Error(), "zz-user-message"), "the fatal error carries the user's message")
+	case 1:
+		zz.Reach("temporary passed through")
+		zz.Assert(errors.IsTemporary(err), "a temporary error stays temporary")
+	case 2:
+		zz.Reach("eof passed through")
+		zz.Assert(err == sliceio.EOF, "EOF is passed through unchanged")
+	}
+	before := calls
+	_, err2 := r.Read(ctx, frame.Slices(make([]int64, 1), make([]int64, 1)))
+	zz.Assert(err2 == err && calls == before, "the error is sticky and the user function is not called again")
 }
